@@ -1,6 +1,6 @@
 """C12 — state-vector and density-matrix objects are faithful to their definitions (DESIGN.md C12).
 
-Proof: coq/Properties/C12.v (all N, every commutative ring with involution).  Tie: the Gallina model
+Proof: coq/Properties/C12.v (all N, every commutative ring with involution).  Tie: the Gallina models (Model/SvOps.v too)
 coq/Model/SvState.v executed at the dyadic Gaussian rationals and compared EXACTLY with the real torch classes on
 Gaussian-integer data.  Falsifier: the real classes against independent numpy references (np.kron, dense algebra),
 N up to 8, and dense == sparse on the real code.
@@ -13,7 +13,7 @@ from props.c06 import dy, dyl, cplx, from_dy, _gi, close, TOL
 
 HEADER = """From Coq Require Import ZArith List Bool.
 Import ListNotations.
-From EV Require Import Model.SvBase Model.SvState.
+From EV Require Import Model.SvBase Model.SvState Model.SvOps.
 Open Scope Z_scope."""
 
 BASIS = [("g", 0), ("r", 1)]
@@ -118,6 +118,21 @@ def gen_coo_case(rng):
     return {"kind": "coo", "a": coo(ra, ca), "b": coo(rb, cb), "a2": coo(ra, ca)}
 
 
+def gen_coodup_case(rng, N):
+    """Square 2^N x 2^N COO operators given as UNCOALESCED entry lists (duplicate (row, col) pairs, arbitrary order,
+    explicit zeros), a state, a scalar: SparseOperator methods must sum the duplicates."""
+    D = 2 ** N
+
+    def coo():
+        cells = [(rng.randrange(D), rng.randrange(D)) for _ in range(rng.randint(0, 2 * D))]
+        cells += [rng.choice(cells) for _ in range(rng.randint(0, 4)) if cells]      # duplicates
+        rng.shuffle(cells)
+        return {"shape": [D, D], "idx": [list(x) for x in cells],
+                "val": [([0, 0] if rng.random() < 0.1 else _gi(rng, 4)) for _ in cells]}
+    return {"kind": "coodup", "N": N, "a": coo(), "b": coo(), "vec": [_gi(rng, 3) for _ in range(D)],
+            "scalar": _gi(rng, 3)}
+
+
 # ------------------------------------------------------------------------------------------------
 # real code
 def _ops_py(ops):
@@ -194,6 +209,27 @@ def _coo_t(x):
     idx = torch.tensor(x["idx"], dtype=torch.int64).reshape(-1, 2).T
     return torch.sparse_coo_tensor(idx, torch.tensor([cplx(v) for v in x["val"]], dtype=torch.complex128),
                                    tuple(x["shape"])).coalesce()
+
+
+def _coo_raw(x):
+    import torch
+    idx = torch.tensor(x["idx"], dtype=torch.int64).reshape(-1, 2).T
+    return torch.sparse_coo_tensor(idx, torch.tensor([cplx(v) for v in x["val"]], dtype=torch.complex128),
+                                   tuple(x["shape"]))           # NOT coalesced
+
+
+def impl_coodup(c):
+    import torch
+    from emu_sv.sparse_operator import SparseOperator, sparse_kron
+    from emu_sv.state_vector import StateVector
+    ta, tb = _coo_raw(c["a"]), _coo_raw(c["b"])
+    A, B = SparseOperator(ta.to_sparse_csr(), gpu=False), SparseOperator(tb.to_sparse_csr(), gpu=False)
+    v = StateVector(torch.tensor([cplx(p) for p in c["vec"]], dtype=torch.complex128), gpu=False)
+    s = cplx(c["scalar"])
+    tl = lambda t: [complex(x) for x in t.reshape(-1).tolist()]
+    return {"dense": tl(A.data.to_dense()), "apply": tl(A.apply_to(v).data), "expect": complex(A.expect(v)),
+            "add": tl((A + B).data.to_dense()), "rmul": tl((s * A).data.to_dense()),
+            "kron": tl(sparse_kron(ta, tb).to_dense()) if c["N"] <= 2 else None}
 
 
 SPARSE_BROKEN = [False]  # set when sparse_kron/sparse_add produce malformed tensors (to_dense would corrupt memory)
@@ -301,10 +337,36 @@ def op_exprs(c, r, sparse_too):
            ("rmul", diff(f"snd (mscale DyK {dy(cplx(c['scalar']))} ({d}))", r["rmul"]), -1)]
     if c["N"] <= 3:
         out.append(("matmul", diff(f"snd (matmul DyK ({d}) ({d}))", r["matmul"]), -1))
+    # the MEANING of the representation (Model/SvOps.v repr_entry) against the real dense (and sparse) operator
+    out.append(("ops.repr_entry==dense", diff(f"snd (repr_mat DyK {_nat(c['N'])} {_ops_lit(c['ops'])})", r["dense"]), -1))
     if sparse_too:
-        out.append(("sparse_from_repr", diff(
-            f"snd (coo_to_mat DyK (sparse_from_repr DyK {_nat(c['N'])} {_ops_lit(c['ops'])}))", r["sparse"]), -1))
+        sp = f"sparse_from_repr DyK {_nat(c['N'])} {_ops_lit(c['ops'])}"
+        out.append(("sparse_from_repr", diff(f"snd (coo_to_mat DyK ({sp}))", r["sparse"]), -1))
+        if r["sparse"] is not None:   # SparseOperator methods through the COO model, one vm_compute (S, v bound once)
+            parts = [diff("coo_apply DyK S v", r["sp_apply"]), zflag("coo_expect DyK S v", r["sp_expect"]),
+                     diff("snd (coo_to_mat DyK (sparse_add DyK S S))", r["sp_add"]),
+                     diff(f"snd (coo_to_mat DyK (coo_scale DyK {dy(cplx(c['scalar']))} S))", r["sp_rmul"])]
+            out.append(("ops.sparse.[apply_to,expect,add,rmul]",
+                        f"let S := {sp} in let v := {v} in [" + "; ".join(parts) + "]", [-1] * len(parts)))
     return out
+
+
+def zflag(expr, expected):
+    """scalar comparison as a Z (-1 = equal), to sit in one list with the dy_first_diff results"""
+    return f"(if dy_eqb ({expr}) {dy(expected)} then (-1) else 0)"
+
+
+def coodup_exprs(c, r):
+    """one vm_compute per case (the literals are bound once): list of first-difference indices, all -1 when equal"""
+    v = dyl([cplx(p) for p in c["vec"]])
+    parts = [diff("snd (coo_to_mat DyK A)", r["dense"]), diff("coo_apply DyK A v", r["apply"]),
+             zflag("coo_expect DyK A v", r["expect"]),
+             diff("snd (coo_to_mat DyK (sparse_add DyK A B))", r["add"]),
+             diff(f"snd (coo_to_mat DyK (coo_scale DyK {dy(cplx(c['scalar']))} A))", r["rmul"])]
+    if r["kron"] is not None:
+        parts.append(diff("snd (coo_to_mat DyK (sparse_kron DyK A B))", r["kron"]))
+    e = f"let A := {_coo_lit(c['a'])} in let B := {_coo_lit(c['b'])} in let v := {v} in [" + "; ".join(parts) + "]"
+    return [("coodup.[to_dense,apply_to,expect,add,rmul,sparse_kron]", e, [-1] * len(parts))]
 
 
 def coo_exprs(c, r):
@@ -379,6 +441,24 @@ def oracle(ctx, c, r):
         ok &= (r["add"] == fl(M + M) and r["sp_add"] == fl(M + M)) or bad("add wrong", "op-add")
         ok &= (r["rmul"] == fl(s * M) and r["sp_rmul"] == fl(s * M)) or bad("rmul wrong", "op-rmul")
         ok &= r.get("public_same", True) or bad("public from_operator_repr differs", "op-public")
+        return ok
+    if c["kind"] == "coodup":
+        def densed(x):
+            A = np.zeros(tuple(x["shape"]), dtype=complex)
+            for (i, j), val in zip(x["idx"], x["val"]):
+                A[i, j] += cplx(val)            # duplicates add up
+            return A
+        fl = lambda A: [complex(x) for x in np.asarray(A).reshape(-1)]
+        A, B = densed(c["a"]), densed(c["b"])
+        v = np.array([cplx(p) for p in c["vec"]], dtype=complex)
+        s = cplx(c["scalar"])
+        ok = r["dense"] == fl(A) or bad("SparseOperator from uncoalesced COO does not sum duplicates", "sparse-dup-dense")
+        ok &= r["apply"] == fl(A @ v) or bad("SparseOperator.apply_to wrong on duplicate entries", "sparse-dup-apply")
+        ok &= r["expect"] == complex(np.vdot(v, A @ v)) or bad("SparseOperator.expect wrong on duplicate entries", "sparse-dup-expect")
+        ok &= r["add"] == fl(A + B) or bad("SparseOperator.__add__ wrong on duplicate entries", "sparse-dup-add")
+        ok &= r["rmul"] == fl(s * A) or bad("SparseOperator.__rmul__ wrong on duplicate entries", "sparse-dup-rmul")
+        ok &= r["kron"] is None or r["kron"] == fl(np.kron(A, B)) or \
+            bad("sparse_kron wrong on uncoalesced inputs", "sparse-kron")
         return ok
     if c["kind"] == "coo":
         def dense(x):
@@ -656,14 +736,15 @@ def corpus_cases():
 
 
 def run_real(c):
-    return {"state": impl_state, "op": impl_op, "coo": impl_coo, "fstate": impl_fstate, "gmat": impl_gmat}[c["kind"]](c)
+    return {"state": impl_state, "op": impl_op, "coo": impl_coo, "fstate": impl_fstate, "gmat": impl_gmat,
+            "coodup": impl_coodup}[c["kind"]](c)
 
 
 def run(ctx):
     from vlib.coqparse import parse
 
-    rc, out = common.coq_make(["Model/SvState.vo"])
-    ctx.obligation("build:Model/SvState.vo", rc == 0, out, kind="build")
+    rc, out = common.coq_make(["Model/SvState.vo", "Model/SvOps.vo"])
+    ctx.obligation("build:Model/SvState.vo Model/SvOps.vo", rc == 0, out, kind="build")
     model_ok = rc == 0
     common.standard_proof_stage(ctx, "C12", ["Properties/C12.vo"])
 
@@ -701,6 +782,10 @@ def run(ctx):
             cases.append(gen_gmat_case(rng, N, exact=True))
             cases.append(gen_gmat_case(rng, N, exact=False))
 
+    for N in range(1, 4):   # uncoalesced COO operators (duplicate entries) through the SparseOperator methods
+        for _ in range(ctx.n(3, 30)):
+            cases.append(gen_coodup_case(rng, N))
+
     n_model = 0
     for c in cases:
         r = run_real(c)
@@ -711,7 +796,7 @@ def run(ctx):
             k2 = "op-shape/" + c.get("shape", "-") + ("/first-coeff-1-multi-entry" if any(
                 len(q) > 1 and q[0][1] == [1, 0] for _, t in c["ops"] for q, _ in t) else "")
             hist[k2] = hist.get(k2, 0) + 1
-        nontrivial = c["kind"] == "coo" or (c["N"] >= 2 and (c["kind"] in ("state", "fstate", "gmat") or any(t for _, t in c["ops"])))
+        nontrivial = c["kind"] == "coo" or (c["N"] >= 2 and (c["kind"] in ("state", "fstate", "gmat", "coodup") or any(t for _, t in c["ops"])))
         ctx.count_case({k: c[k] for k in c if k not in ("vec", "other", "A", "B", "u", "v")} | {"oracle_ok": ok}, nontrivial)
         if not model_ok:
             continue
@@ -723,6 +808,8 @@ def run(ctx):
             exprs = coo_exprs(c, r)
         elif c["kind"] == "gmat" and c["exact"] and c["N"] <= 3:
             exprs = gmat_exprs(c, r)
+        elif c["kind"] == "coodup":
+            exprs = coodup_exprs(c, r)
         else:
             continue
         n_model += 1
@@ -731,6 +818,8 @@ def run(ctx):
     ctx.extra["input_distribution"] = dict(sorted(hist.items()))
 
     corr_ok, detail = model_ok, "" if model_ok else "model does not build"
+    ops_ok, ops_detail, n_ops = model_ok, "" if model_ok else "model does not build", 0
+    is_ops = lambda name: name.startswith(("ops.", "coodup."))
     if model_ok:
         try:
             outs = ev.run(shard=60 if th else 25, jobs=12)
@@ -742,23 +831,38 @@ def run(ctx):
                     corr_ok, detail = False, f"index_to_bits disagrees with index_to_bitstring at N={N}"
             for (c, name, idx, want) in pending:
                 v = parse(outs[idx])
-                if v != want and corr_ok:
+                if is_ops(name):     # Model/SvOps.v: meaning of the representation, SparseOperator methods on COO
+                    n_ops += 1
+                    if v != want and ops_ok:
+                        ops_ok = False
+                        ops_detail = f"{name}: model/impl differ ({v}); case={json.dumps(c)[:900]}"
+                        ctx.extra["first_disagreement_ops"] = {"case": c, "what": name, "result": str(v)}
+                elif v != want and corr_ok:
                     corr_ok = False
                     detail = f"{name}: model/impl differ ({v}); case={json.dumps(c)[:900]}"
                     ctx.extra["first_disagreement"] = {"case": c, "what": name, "result": str(v)}
         except (common.CoqEvalError, ValueError) as ex:
             corr_ok, detail = False, str(ex)
-    ctx.extra["tie"] = {"cases_with_model": n_model, "exact_comparisons": len(pending) + len(bits_expected)}
+            ops_ok, ops_detail = False, str(ex)
+    ctx.extra["tie"] = {"cases_with_model": n_model, "exact_comparisons": len(pending) + len(bits_expected),
+                        "exact_comparisons_SvOps": n_ops}
     ctx.obligation("correspondence:Model.SvState==StateVector/DensityMatrix/DenseOperator/SparseOperator/"
                    "index_to_bitstring (exact on Gaussian integers)", corr_ok, detail, kind="correspondence")
+    ctx.obligation("correspondence:Model.SvOps repr_entry==DenseOperator/SparseOperator._from_operator_repr; "
+                   "coo_apply/coo_expect/sparse_add/coo_scale==SparseOperator.apply_to/expect/__add__/__rmul__ "
+                   "(representations and uncoalesced COO with duplicates, exact on Gaussian integers)",
+                   ops_ok and (n_ops > 0 or not model_ok), ops_detail or ("no comparison ran" if n_ops == 0 else ""),
+                   kind="correspondence")
     ctx.rule = ("index_to_bitstring exhaustively for N <= 9 (12 thorough); random amplitude dictionaries, "
                 "Gaussian-integer vectors, operator representations (1-4 tensor terms, QuditOps over gg/gr/rg/rr, "
                 "multi-qubit targets, every third case with repeated targets through _from_operator_repr), N = 1..8; "
-                "random coalesced COO pairs for sparse_kron/sparse_add; non-trivial = N >= 2 and a non-identity "
-                "factor; distinct by input hash")
-    ctx.trusted_base += ["hand-written Gallina model coq/Model/SvState.v, validated by the exact correspondence",
-                         "torch coalesce()/to_dense() sum duplicate COO entries (the model keeps COO lists "
-                         "uncoalesced and compares through to_dense)",
+                "random coalesced COO pairs for sparse_kron/sparse_add; random UNCOALESCED square COO operators "
+                "(duplicate entries, explicit zeros, N = 1..3) through SparseOperator apply_to/expect/+/scalar*; "
+                "non-trivial = N >= 2 and a non-identity factor; distinct by input hash")
+    ctx.trusted_base += ["hand-written Gallina models coq/Model/SvState.v and coq/Model/SvOps.v, validated by the exact "
+                         "correspondences",
+                         "torch coalesce()/to_dense()/to_sparse_csr() sum duplicate COO entries (the model keeps COO "
+                         "lists uncoalesced and compares through to_dense; tied on uncoalesced inputs)",
                          "numpy kron / matmul for the independent references"]
     ctx.assumptions += [f"precision oracle: generic float inputs, N <= 6, tolerance {PREC_TOL} relative to the data "
                         "scale (float64 rounding there is <= ~1e-14; a pass through float32 is >= 1e-9)",
@@ -783,12 +887,33 @@ def replay(ctx, path):
 
 META = {
     "category": "proof",
-    "technique": "Coq proof over an arbitrary commutative ring with involution (all N) + exact dyadic correspondence "
-                 "of the Gallina model with the torch classes + numpy-reference falsifier",
+    "technique": "Coq proof over an arbitrary commutative ring with involution (all N, all operator representations) + "
+                 "exact dyadic correspondence of the Gallina models (Model/SvState.v, Model/SvOps.v) with the torch "
+                 "classes, incl. uncoalesced COO data + numpy-reference falsifier",
     "text": ("Proved for every N: bitstring <-> index round trip (big-endian, r=1, g=0) and digit q = bit_q; the "
              "iterated Kronecker product of 2x2 factors has entries prod_q A_q[bit_q k, bit_q k']; sparse_kron and "
              "sparse_add agree entrywise with dense kron / add; from_state_vector gives psi_k conj(psi_k'); "
-             "inner/overlap/expect are the stated sums. Validated (not proved): the model is the torch code."),
-    "note": ("Trusted: Coq kernel+VM, the hand-written model (tied exactly on every run), torch coalesce/to_dense "
-             "semantics, exactness of float64 on small Gaussian integers."),
+             "inner/overlap/expect are the stated sums. Proved for every N (also 0) and EVERY operator representation "
+             "(any number of terms, nested tensor factors, multi-qubit / repeated / out-of-range targets): the 2x2 "
+             "factor of a QuditOp has entry [a][b] = sum of the coefficients of 'ab' (C12_qudit_op_entry); the gate "
+             "list has N factors and factor q is the LAST assignment to q, identity if none "
+             "(C12_tensor_gates_last_wins); DenseOperator._from_operator_repr is 2^N x 2^N with <i|O|j> = sum_terms "
+             "coeff * prod_q site_entry(q, bit_q i, bit_q j) (C12_dense_from_repr_entry); reduce(sparse_kron) == "
+             "reduce(kron) (C12_sparse_kron_all_dense); THE DENSE AND SPARSE OPERATORS ALWAYS AGREE: same shape and "
+             "SparseOperator(...).to_dense() == DenseOperator(...) entry by entry (C12_dense_sparse_agree), and their "
+             "apply_to / expect coincide on every state (C12_dense_sparse_apply_agree); SparseOperator.apply_to / "
+             "expect on ANY COO entry list (duplicates, any order) equal the dense matrix-vector product / "
+             "vdot(v, M v) of to_dense() (C12_coo_apply_dense), scalar * sparse is entrywise (C12_coo_scale_dense); "
+             "operator algebra: (A @ B).apply_to(v) = A.apply_to(B.apply_to(v)) (C12_apply_matmul), apply_to and "
+             "expect are linear in the operator (C12_apply_linear, C12_expect_linear). Non-vacuity: "
+             "C12_premises_satisfiable, C12_repr_entry_sample. Validated (not proved): the models are the torch code "
+             "- two exact ties: Model.SvState (states, dense/sparse construction, COO kron/add) and Model.SvOps "
+             "(repr_entry == real dense/sparse operator for N <= 4 (5 thorough); coo_apply/coo_expect/sparse_add/"
+             "coo_scale == SparseOperator.apply_to/expect/__add__/__rmul__ on operators from representations (N <= 3) "
+             "and on uncoalesced COO operators with duplicate entries, N <= 3)."),
+    "note": ("Trusted: Coq kernel+VM, the hand-written models Model/SvState.v and Model/SvOps.v (tied exactly on every "
+             "run), torch coalesce/to_dense/to_sparse_csr semantics (duplicates add; exercised by the uncoalesced-COO "
+             "tie), exactness of float64 on small Gaussian integers. SparseOperator.__matmul__ raises "
+             "NotImplementedError and the operator classes only accept StateVector (no density-matrix apply/expect "
+             "path exists in emu_sv operators), so neither is modelled."),
 }
